@@ -9,6 +9,7 @@ CONSTANTS
   Deltas = {1, 2, 3, 4, 5, 6}
   SameModes = {FALSE}
   MaxTouched = 3
+  GenMaxMixed = 2
   GenWithRepeat = FALSE
   AsCoded = TRUE
 INVARIANTS TypeOK Completeness SoundNonCancelling SingleFaultDetected BatchSplitIndependent OnlyGapIsCancelling
